@@ -230,6 +230,11 @@ func (fs *ReaderFS) readProcessFile(
 	n, err := reader.Read(smallBuf.Data)
 	switch err {
 	case io.EOF:
+		if int64(n) != info.Size() {
+			// fullReader reports a stream that ends inside the entry like the end of the entry
+			smallBuf.Done()
+			return fserrors.WithMessage(io.ErrUnexpectedEOF, "reading tar file")
+		}
 		wg.Add(1)
 		go func() { // continue prepping small file in the background
 			err := fs.writeFile(p, info, smallBuf, n, nil, nil)
@@ -280,7 +285,10 @@ func (fs *ReaderFS) writeFile(path string, info hackpadfs.FileInfo, initialBuf *
 		return nil
 	}
 
-	_, err = io.CopyBuffer(fWriter, r, copyBuf.Data)
+	copied, err := io.CopyBuffer(fWriter, r, copyBuf.Data)
+	if err == nil && int64(n)+copied != info.Size() {
+		err = io.ErrUnexpectedEOF // the stream ended inside the entry
+	}
 	return fserrors.WithMessage(err, "copybuf: copying file")
 }
 
